@@ -30,7 +30,7 @@ def configs(tier):
         archs = [(1, 1), (2, 3), (3, 2), (2, 1)]
     else:
         archs = [(nv, nh) for nv in range(1, 6) for nh in range(1, 7)]
-    return [{"kind": k, "nv": nv, "nh": nh} for k in ("positive", "complex") for (nv, nh) in archs] + [{"generic": "every shape"}, {"lean": "size-generic lemmas"}]
+    return [{"kind": k, "nv": nv, "nh": nh} for k in ("positive", "complex") for (nv, nh) in archs] + [{"generic": "every shape"}, {"lean": "size-generic lemmas"}, {"independence": "complex"}]
 
 
 def canaries(tier):
@@ -64,6 +64,11 @@ def _mk_stub_energy(arr, log, nv):
 
 
 def run_config(ctx, cfg):
+    if cfg.get("independence"):
+        # the amplitude and the phase network are independent objects on every construction route (also module=): what one
+        # network holds never follows the other
+        from lemmas import C20
+        return C20._module(ctx, {"kind": cfg["independence"]})
     if cfg.get("lean"):
         from contracts import leanlink
         return leanlink.run(ctx, "C01")
@@ -252,6 +257,9 @@ def run_config(ctx, cfg):
 
 
 def replay(o):
+    if o["cfg"].get("independence"):
+        from drivers import C20 as D20
+        return D20.replay({"part": "module", "kind": o["cfg"]["independence"]})
     if o["cfg"].get("generic"):
         from contracts import gsets
         return gsets.replay("C01", o)
